@@ -499,6 +499,22 @@ theorem C09_complete_real (t : EC.Time) (ec : EightChar) (y0 y1 : Int) (ht : Tim
 end Tyme
 
 namespace Tyme
+open EC Lunar
+/-- The eight characters as the code reaches them from an instant (`SolarTime::get_lunar_hour().get_eight_char()`: civil
+date → lunar date → civil date again → pillars of the instant) ARE the pillars of the instant, for every date on which the
+lunar round trip is the identity — all years but the neighbourhoods of the five D4 junction years (C02_roundtrip_real). -/
+theorem C09_via_lunar_real (t : EC.Time) (hv : Civil.valid t.1 t.2.1 t.2.2.1 = true)
+    (hy : (1 ≤ t.1 ∧ t.1 ≤ 6) ∨ (10 ≤ t.1 ∧ t.1 ≤ 21) ∨ (26 ≤ t.1 ∧ t.1 ≤ 234) ∨ (241 ≤ t.1 ∧ t.1 ≤ 9997)) :
+    ofTimeViaLunar realEph t = EC.ofTime realEph t := by
+  obtain ⟨r, h1, _, _, _, _, h2, _⟩ := C02_roundtrip_real t.1 t.2.1 t.2.2.1 hv hy
+  unfold ofTimeViaLunar
+  rw [h1]
+  obtain ⟨x, k⟩ := r
+  dsimp only at h2 ⊢
+  rw [h2]
+end Tyme
+
+namespace Tyme
 open EC
 /-- non-vacuity: 2024-02-10 14:30:00 is a well-formed instant of the range whose double-hour (13:00–15:00) holds no Jie -/
 example : TimeOK ((2024, 2, 10, 14, 30, 0) : EC.Time) := by
